@@ -137,6 +137,19 @@ def make_classes(ctl):
         def __hash__(self):
             return 3
 
+    class NMF(NM):
+        """a user NodeMixin class whose instances are falsy"""
+
+        def __bool__(self):
+            return False
+
+    class LTF(LT):
+        """... and its LightNodeMixin twin"""
+        __slots__ = ()
+
+        def __bool__(self):
+            return False
+
     class NDF(ND):
         """a Node subclass that is falsy and has length 0 (a node nevertheless)"""
 
@@ -153,7 +166,7 @@ def make_classes(ctl):
             return len(self.children)
 
     return {"mixin": NM, "node": ND, "anynode": AN, "symlink": SL, "light": LT, "eqmixin": EQ, "lighteq": LTEQ,
-            "falsynode": NDF, "lenany": ANL}
+            "falsynode": NDF, "lenany": ANL, "falsymixin": NMF, "lightfalsy": LTF}
 
 
 class NotANode(object):
